@@ -116,7 +116,12 @@ func genC04Plain(seed uint64, run int, tier string) *Plan {
 		case 6:
 			return Op{K: "deleteOne", DB: "db", C: "k", F: jd(bson.D{{Key: "_id", Value: k}})}
 		case 7, 8:
-			return Op{K: "find", DB: "db", C: "k", F: jd(bson.D{})}
+			op := Op{K: "find", DB: "db", C: "k", F: jd(bson.D{})}
+			if r.IntN(3) == 0 {
+				// a projected read: builds its result beside the stored documents, which other readers are using
+				op.P = jd(pick(r, bson.D{{Key: "n", Value: int32(1)}}, bson.D{{Key: "by", Value: int32(0)}}, bson.D{{Key: "_id", Value: int32(0)}, {Key: "by", Value: int32(1)}}))
+			}
+			return op
 		case 9:
 			return Op{K: "count", DB: "db", C: "k", F: jd(bson.D{{Key: "n", Value: bson.D{{Key: "$gte", Value: int32(1)}}}})}
 		case 10:
